@@ -1,13 +1,15 @@
-\* shortest history exhibiting the mechanism $MECH (run with -workers 1; violated iff the mechanism is reachable)
+\* a shortest history per mechanism (run with -workers 1); StopWhenAllSeen is violated iff all are reachable
 CONSTANTS
   Mods = {"main", "a", "b", "c"}
   NNames = 2
   MaxItems = 3
-  MaxHist = 5
+  MaxHist = 4
   Kinds = {"add", "delete", "rename", "sig", "arg", "ws"}
-  CancelAt = {1, 4}
+  CancelAt = {4}
   Inits = {"base"}
   KeepHist = TRUE
-SPECIFICATION Spec
-INVARIANT TargetUnreachable
+INIT CEInit
+NEXT Next
+INVARIANT NoteMechs
+INVARIANT StopWhenAllSeen
 CHECK_DEADLOCK FALSE
